@@ -17,7 +17,8 @@ EXPLANATION = (
     '(R2) in every single-element mutator all raising statements and the _hook_check call precede the first write (or the '
     'write sits in a try/except rollback) and _hook_done follows with the same arguments. (R3) bulk stores into the '
     'sequence are preceded by a uniqueness witness for the arriving values. Agreement with a list model over arbitrary '
-    'operation sequences is declined.')
+    'operation sequences is declined; (R5/R6) however the *inductive step* is decided: each mutator definition is folded over every small '
+    'pre-state satisfying the invariant and every small argument and must re-establish it and agree with the list model.')
 TRUSTED = ['CPython ast', 'semantics of list/set/dict methods']
 ASSUMPTIONS = ['MutableSequence mixin methods (append, extend, pop, remove, +=) reach the container only through insert/__delitem__/__setitem__']
 
@@ -55,6 +56,35 @@ def run(ctx, rep):
     qset(ctx, rep)
     linked(ctx, rep)
     predicates(ctx, rep)
+    folded(ctx, rep)
+
+
+def folded(ctx, rep):
+    """Inductive step by folding the mutators' definitions over all small pre-states and arguments."""
+    from .. import containers
+    m = ctx.m
+    R5 = rep.rule('C18.R5', 'folded step invariant of qset mutators: for every small pre-state and argument the result equals the '
+                            'list-without-duplicates model, list and set agree, hooks bracket the change, and a raising call leaves the state unchanged')
+    res, cons = containers.fold_qset(m)
+    rep.consult(*cons)
+    seen = set()
+    for ok, meth, case, detail in res:
+        rep.instance(R5, ok=ok, sample=dict(case=case, detail=detail) if len(seen) < 3 else None, nontrivial=(meth, case))
+        if not ok and meth not in seen:
+            seen.add(meth)
+            rep.finding(R5, f'C18.R5/qset/{meth}', 'pytableaux/tools/hybrids.py', f'qset.{meth}', f'{case}: {detail}')
+    rep.floor('C18.R5', 'qset step cases', len(res), 1500)
+    R6 = rep.rule('C18.R6', 'folded step invariant of linqset item/slice assignment: after the in-place rewrite the hash table maps exactly '
+                            'the chain\'s values to their links; rejected assignments change nothing')
+    res, cons = containers.fold_linqset_setitem(m)
+    rep.consult(*cons)
+    first = True
+    for ok, meth, case, detail in res:
+        rep.instance(R6, ok=ok, nontrivial=(meth, case))
+        if not ok and first:
+            first = False
+            rep.finding(R6, 'C18.R6/linqset/__setitem__', 'pytableaux/tools/linked.py', 'linqset.__setitem__', f'{case}: {detail}')
+    rep.floor('C18.R6', 'linqset assignment cases', len(res), 400)
 
 
 def qset(ctx, rep):
